@@ -441,6 +441,11 @@ def run(ctx: Ctx):
     # container end, milestones included) is decided over own + inherited edges (= C04 R04.1)
     from .c04 import edge_set_rule
     edge_set_rule(ctx, "R06.9", only={"Project._propagateContainerEndDates"})
+    # ---------------------------------------------------------------- R06.10 the dates a task is framed by are read for the scenario
+    # being scheduled (= C16 R16.1, restricted to the functions that write reported dates)
+    from .c16 import scenario_index_rule
+    scenario_index_rule(ctx, "R06.10", only={"Project.scheduleScenario", "TaskScenario.schedule", "TaskScenario.scheduleSlot",
+                                             "TaskScenario._calculatePreciseEndTimeAndRelease", "TaskScenario.scheduleContainer"})
     ctx.floor("R06.7", 4)
     ctx.floor("R06.1", 6)
     ctx.floor("R06.2", 3)
